@@ -581,7 +581,25 @@ def targeted_edits(toks, rng):
             out.append(("empty-testlist", i, toks[:i + 1] + [b")"] + toks[i + 1:]))
     if len(out) > 80:
         out = rng.sample(out, 80)
-    return out + bracket_edits(toks, rng)
+    return out + bracket_edits(toks, rng) + tag_edits(toks, rng)
+
+
+def tag_edits(toks, rng, cap=60):
+    """Every tag the language knows, put where a tag stands or right behind a command name:
+    legal for some commands, illegal for most (the judge decides, never the intent)."""
+    tags = [t.encode() for t in _all_tags()]
+    out = []
+    for i, t in enumerate(toks):
+        if t[:1] == b":":
+            for x in tags:
+                if x != t.lower():
+                    out.append(("tag->tag", i, toks[:i] + [x] + toks[i + 1:]))
+        elif is_word(t) and t.decode("ascii", "replace").lower() in SPEC and i + 1 < len(toks):
+            for x in tags:
+                out.append(("tag-after-name", i + 1, toks[:i + 1] + [x] + toks[i + 1:]))
+    if len(out) > cap:
+        out = rng.sample(out, cap)
+    return out
 
 
 CLOSERS = [b")", b"]", b"}"]
